@@ -7,11 +7,14 @@
        `boundary`.  It recognises and drops author-mail/-time/-tz and the committer lines (the
        Rust code stores them for the porcelain re-printers; they do not influence which commit or
        which author a line gets, so the model drops them).  It ignores every other line:
-       `summary`, `previous`, `filename` (!) and the tab-prefixed content line.
+       `summary`, `previous` and the tab-prefixed content line.  `filename <path>` is read through
+       utils::unescape_git_path: the path the file had in the commit the lines come from.
    (b) print_line_porcelain : what git prints for a list of blame groups.
    (c) get_line_attribution / split_hunk (populate_ai_human_authors) / overlay (overlay_ai_authorship).
-       The path given to get_line_attribution is the REQUESTED path; the porcelain `filename` is
-       never read (GenBlame.parser_reads_filename = false, overlay_uses_requested_path = true).
+       The path given to get_line_attribution is the hunk's own path (porcelain `filename`), the
+       requested path only when git printed none (GenBlame.parser_reads_filename = true,
+       overlay_uses_hunk_path = true).  git's C-style quoting of unusual paths is undone by
+       unescape_git_path; its quoted branch is the function parameter `dq` (environment).
        The foreign-prompt fallback (git grep over refs/notes/ai) is the function `foreign`.
    (d) json_lines / expand_json : grouping of output_json_format, and its inverse.
 
@@ -70,10 +73,11 @@ Record hunk := mkHunk {
   h_sha : str;
   h_author : str;                    (* original_author *)
   h_boundary : bool;
-  h_ai_human : option str }.
+  h_ai_human : option str;
+  h_path : str }.                    (* orig_path: the file's path in that commit ([] = not stated) *)
 
-Record pmeta := mkMeta { m_author : str; m_boundary : bool }.
-Definition meta0 : pmeta := mkMeta [] false.
+Record pmeta := mkMeta { m_author : str; m_boundary : bool; m_filename : str }.
+Definition meta0 : pmeta := mkMeta [] false [].
 
 Record pcur := mkCur { c_sha : str; c_final : N; c_orig : N; c_group : N }.
 
@@ -81,6 +85,7 @@ Inductive lkind :=
 | LSkip
 | LAuthor (a : str)
 | LBoundary
+| LFilename (raw : str)
 | LHeader (sha p2 p3 : str) (p4 : option str).
 
 Definition nth_tok (n : nat) (ts : list str) : str := nth n ts [].
@@ -94,7 +99,10 @@ Definition classify (line : str) : lkind :=
            | Some rest => LAuthor rest
            | None =>
                if existsb (fun p => has_prefix p line) skipped_prefixes then LSkip
-               else if str_eqb line boundary_word then LBoundary
+               else match strip_prefix filename_prefix line with
+               | Some rest => LFilename rest
+               | None =>
+               if str_eqb line boundary_word then LBoundary
                else
                  let ts := split_ws line in
                  let sha := nth_tok 0 ts in
@@ -103,11 +111,23 @@ Definition classify (line : str) : lkind :=
                  if nonempty sha && forallb is_hex sha && nonempty p2 && nonempty p3
                  then LHeader sha p2 p3 (nth_error ts 3)
                  else LSkip
+               end
            end
   end.
 
+(* utils::unescape_git_path: a path that does not both start and end with a double quote is
+   returned as it is; otherwise the C-style quoting is undone (dq).  The one-character string
+   consisting of a double quote makes the slice [1..0] panic (None). *)
+Definition unescape_git_path (dq : str -> str) (s : str) : option str :=
+  if first_is c_dq s && last_is c_dq s then
+    match s with
+    | [_] => None
+    | _ => Some (dq s)
+    end
+  else Some s.
+
 Definition hunk_of_cur (c : pcur) (m : pmeta) (f_end o_end : N) : hunk :=
-  mkHunk (c_final c) f_end (c_orig c) o_end (c_sha c) (m_author m) (m_boundary m) None.
+  mkHunk (c_final c) f_end (c_orig c) o_end (c_sha c) (m_author m) (m_boundary m) None (m_filename m).
 
 (* pushing the current hunk; u32 `start + group - 1` overflows (debug panic) when start + group > u32_max *)
 Definition flush_cur (c : option pcur) (m : pmeta) : res (list hunk) :=
@@ -120,7 +140,7 @@ Definition flush_cur (c : option pcur) (m : pmeta) : res (list hunk) :=
       else Ok [hunk_of_cur c m (c_final c) (c_orig c)]
   end.
 
-Fixpoint parse_lines (ls : list str) (acc : list hunk) (c : option pcur) (m : pmeta)
+Fixpoint parse_lines (dq : str -> str) (ls : list str) (acc : list hunk) (c : option pcur) (m : pmeta)
   : res (list hunk) :=
   match ls with
   | [] => match flush_cur c m with
@@ -128,32 +148,37 @@ Fixpoint parse_lines (ls : list str) (acc : list hunk) (c : option pcur) (m : pm
           end
   | l :: ls' =>
       match classify l with
-      | LSkip => parse_lines ls' acc c m
-      | LAuthor a => parse_lines ls' acc c (mkMeta a (m_boundary m))
-      | LBoundary => parse_lines ls' acc c (mkMeta (m_author m) true)
+      | LSkip => parse_lines dq ls' acc c m
+      | LAuthor a => parse_lines dq ls' acc c (mkMeta a (m_boundary m) (m_filename m))
+      | LBoundary => parse_lines dq ls' acc c (mkMeta (m_author m) true (m_filename m))
+      | LFilename raw =>
+          match unescape_git_path dq raw with
+          | Some f => parse_lines dq ls' acc c (mkMeta (m_author m) (m_boundary m) f)
+          | None => Panic
+          end
       | LHeader sha p2 p3 (Some p4) =>
           match flush_cur c m with
           | Ok hs =>
-              parse_lines ls' (acc ++ hs)
+              parse_lines dq ls' (acc ++ hs)
                 (Some (mkCur sha (u32_or 0 p3) (u32_or 0 p2) (u32_or 1 p4))) meta0
           | Err => Err
           | Panic => Panic
           end
       | LHeader sha p2 p3 None =>
           match c with
-          | Some _ => parse_lines ls' acc c m
-          | None => parse_lines ls' acc (Some (mkCur sha (u32_or 0 p3) (u32_or 0 p2) 1)) m
+          | Some _ => parse_lines dq ls' acc c m
+          | None => parse_lines dq ls' acc (Some (mkCur sha (u32_or 0 p3) (u32_or 0 p2) 1)) m
           end
       end
   end.
 
-Definition parse_line_porcelain (text : str) : res (list hunk) :=
-  parse_lines (lines text) [] None meta0.
+Definition parse_line_porcelain (dq : str -> str) (text : str) : res (list hunk) :=
+  parse_lines dq (lines text) [] None meta0.
 
 (* ------------------------------------------------------------------ per-line view *)
 
 Record bline := mkBline {
-  bl_final : N; bl_orig : N; bl_sha : str; bl_author : str; bl_boundary : bool }.
+  bl_final : N; bl_orig : N; bl_sha : str; bl_author : str; bl_boundary : bool; bl_path : str }.
 
 Fixpoint lines_from (f o : N) (n : nat) : list (N * N) :=
   match n with
@@ -164,7 +189,7 @@ Fixpoint lines_from (f o : N) (n : nat) : list (N * N) :=
 Definition hunk_len (h : hunk) : nat := N.to_nat (h_end h - h_start h + 1).
 
 Definition hunk_lines (h : hunk) : list bline :=
-  map (fun fo => mkBline (fst fo) (snd fo) (h_sha h) (h_author h) (h_boundary h))
+  map (fun fo => mkBline (fst fo) (snd fo) (h_sha h) (h_author h) (h_boundary h) (h_path h))
       (lines_from (h_start h) (h_ostart h) (hunk_len h)).
 
 (* ------------------------------------------------------------------ (b) what git prints *)
@@ -179,12 +204,12 @@ Record gentry := mkG {
   g_summary : str;
   g_previous : option str;
   g_boundary : bool;
-  g_filename : str;
+  g_filename : str;                  (* the path the file had in commit g_sha *)
+  g_filename_printed : str;          (* as git prints it (C-style quoted when unusual) *)
   g_content : list str }.
 
 Definition s_summary : str := [115; 117; 109; 109; 97; 114; 121; 32].
 Definition s_previous : str := [112; 114; 101; 118; 105; 111; 117; 115; 32].
-Definition s_filename : str := [102; 105; 108; 101; 110; 97; 109; 101; 32].
 
 Definition header_line (g : gentry) (k : N) : str :=
   g_sha g ++ [c_sp] ++ print_N (g_orig g + k) ++ [c_sp] ++ print_N (g_final g + k)
@@ -202,7 +227,7 @@ Definition meta_lines (g : gentry) : list str :=
     s_summary ++ g_summary g ]
   ++ (match g_previous g with Some p => [s_previous ++ p] | None => [] end)
   ++ (if g_boundary g then [boundary_word] else [])
-  ++ [ s_filename ++ g_filename g ].
+  ++ [ filename_prefix ++ g_filename_printed g ].
 
 Definition line_block (g : gentry) (k : N) (content : str) : list str :=
   header_line g k :: meta_lines g ++ [[content_prefix] ++ content].
@@ -221,7 +246,7 @@ Definition print_line_porcelain (es : list gentry) : str := unlines (print_lines
 
 Definition hunk_of_entry (g : gentry) : hunk :=
   mkHunk (g_final g) (g_final g + g_num g - 1) (g_orig g) (g_orig g + g_num g - 1)
-         (g_sha g) (g_author g) (g_boundary g) None.
+         (g_sha g) (g_author g) (g_boundary g) None (g_filename g).
 
 (* free text that git prints on one line *)
 Definition text_ok (s : str) : bool := negb (mem c_nl s) && negb (mem c_cr s).
@@ -234,7 +259,7 @@ Definition gentry_ok (g : gentry) : bool :=
   && text_ok (g_committer g) && text_ok (g_cmail g) && text_ok (g_ctime g) && text_ok (g_ctz g)
   && text_ok (g_summary g)
   && (match g_previous g with Some p => text_ok p | None => true end)
-  && text_ok (g_filename g)
+  && text_ok (g_filename_printed g) && nonempty (g_filename g)
   && forallb text_ok (g_content g).
 
 Definition wf_entries (es : list gentry) : bool := forallb gentry_ok es.
@@ -250,7 +275,11 @@ Definition entry_glines (g : gentry) : list gline :=
 Definition glines (es : list gentry) : list gline := flat_map entry_glines es.
 
 Definition bline_of_gline (x : gline) : bline :=
-  mkBline (gl_final x) (gl_orig x) (gl_sha x) (gl_author x) (gl_boundary x).
+  mkBline (gl_final x) (gl_orig x) (gl_sha x) (gl_author x) (gl_boundary x) (gl_filename x).
+
+(* unescape_git_path undoes what git printed *)
+Definition names_agree (dq : str -> str) (es : list gentry) : Prop :=
+  forall g, In g es -> unescape_git_path dq (g_filename_printed g) = Some (g_filename g).
 
 (* ------------------------------------------------------------------ (c) notes and the overlay *)
 
@@ -322,11 +351,11 @@ Fixpoint split_runs (h : hunk) (cs : N) (cur : option str) (i : N) (rest : list 
   : list hunk :=
   match rest with
   | [] => [mkHunk (h_start h + cs) (h_end h) (h_ostart h + cs) (h_oend h)
-                  (h_sha h) (h_author h) (h_boundary h) cur]
+                  (h_sha h) (h_author h) (h_boundary h) cur (h_path h)]
   | a :: rest' =>
       if opt_str_eqb a cur then split_runs h cs cur (i + 1) rest'
       else mkHunk (h_start h + cs) (h_start h + i - 1) (h_ostart h + cs) (h_ostart h + i - 1)
-                  (h_sha h) (h_author h) (h_boundary h) cur
+                  (h_sha h) (h_author h) (h_boundary h) cur (h_path h)
            :: split_runs h i a (i + 1) rest'
   end.
 
@@ -338,14 +367,18 @@ Fixpoint first_some {A} (l : list (option A)) : option A :=
   end.
 
 Definition with_ai_human (h : hunk) (who : option str) : hunk :=
-  mkHunk (h_start h) (h_end h) (h_ostart h) (h_oend h) (h_sha h) (h_author h) (h_boundary h) who.
+  mkHunk (h_start h) (h_end h) (h_ostart h) (h_oend h) (h_sha h) (h_author h) (h_boundary h) who (h_path h).
+
+(* notes are keyed by the path the file had in the commit that introduced the lines *)
+Definition lookup_path (own requested : str) : str :=
+  match own with [] => requested | _ => own end.
 
 Definition split_hunk (split : bool) (notes : str -> option alog) (foreign : str -> option prompt)
            (path : str) (h : hunk) : list hunk :=
   match notes (h_sha h) with
   | None => [h]
   | Some log =>
-      let las := map (fun o => attr_human (get_line_attribution log foreign path o))
+      let las := map (fun o => attr_human (get_line_attribution log foreign (lookup_path (h_path h) path) o))
                      (nrange (h_ostart h) (hunk_len h)) in
       if split then split_runs h 0 (match las with a :: _ => a | [] => None end) 0 las
       else [with_ai_human h (first_some las)]
@@ -379,7 +412,7 @@ Definition overlay_hunk (o : opts) (notes : str -> option alog) (foreign : str -
   match notes (h_sha h) with
   | Some log =>
       map (fun fo =>
-             match get_line_attribution log foreign path (snd fo) with
+             match get_line_attribution log foreign (lookup_path (h_path h) path) (snd fo) with
              | Some (hash, p) => mkOline (fst fo) (ai_name o hash p) (Some hash)
              | None => mkOline (fst fo) (human_name o (h_author h)) None
              end)
@@ -392,15 +425,15 @@ Definition overlay (o : opts) notes foreign path (hs : list hunk) : list oline :
   flat_map (overlay_hunk o notes foreign path) hs.
 
 (* run_blame_analysis_pipeline: porcelain text -> hunks (split) -> overlay *)
-Definition blame_hunks (o : opts) notes foreign path (text : str) : res (list hunk) :=
-  match parse_line_porcelain text with
+Definition blame_hunks (dq : str -> str) (o : opts) notes foreign path (text : str) : res (list hunk) :=
+  match parse_line_porcelain dq text with
   | Ok hs => Ok (split_hunks (o_split o) notes foreign path hs)
   | Err => Err
   | Panic => Panic
   end.
 
-Definition blame_lines (o : opts) notes foreign path (text : str) : res (list oline) :=
-  match blame_hunks o notes foreign path text with
+Definition blame_lines (dq : str -> str) (o : opts) notes foreign path (text : str) : res (list oline) :=
+  match blame_hunks dq o notes foreign path text with
   | Ok hs => Ok (overlay o notes foreign path hs)
   | Err => Err
   | Panic => Panic
@@ -538,7 +571,7 @@ Definition listed (log : alog) foreign (e : entry) (line : N) : Prop :=
 Definition line_out (o : opts) (notes : str -> option alog) foreign (path : str) (b : bline) : oline :=
   match notes (bl_sha b) with
   | Some log =>
-      match get_line_attribution log foreign path (bl_orig b) with
+      match get_line_attribution log foreign (lookup_path (bl_path b) path) (bl_orig b) with
       | Some (hash, p) => mkOline (bl_final b) (ai_name o hash p) (Some hash)
       | None => mkOline (bl_final b) (human_name o (bl_author b)) None
       end
@@ -550,7 +583,7 @@ Definition tool_opts (o : opts) : opts := mkOpts false (o_human_as_human o) (o_m
 
 Definition attribution_of (notes : str -> option alog) foreign (path : str) (b : bline) : option (list N * prompt) :=
   match notes (bl_sha b) with
-  | Some log => get_line_attribution log foreign path (bl_orig b)
+  | Some log => get_line_attribution log foreign (lookup_path (bl_path b) path) (bl_orig b)
   | None => None
   end.
 
@@ -560,10 +593,6 @@ Definition fallback_name (o : opts) (notes : str -> option alog) (b : bline) : l
   | Some _ => human_name o (bl_author b)
   | None => nolog_name o (bl_author b)
   end.
-
-(* the known class: some line's path in its originating commit differs from the requested path *)
-Definition Known_C09 (path : str) (es : list gentry) : Prop :=
-  exists x, In x (glines es) /\ gl_filename x <> path.
 
 (* what --json lists and what the author column of the default format shows, for the same per-line facts *)
 Definition json_ai_lines (o : opts) notes foreign (path : str) (bl : list bline) : list (N * str) :=
@@ -581,15 +610,27 @@ Definition names_not_hashes (o : opts) notes foreign (path : str) (bl : list bli
 
 (* ------------------------------------------------------------------ -L arguments and their validation *)
 
-(* parse_line_range: `a,b` (split at the first comma) or a single number n, read as n,n *)
+(* parse_line_range.  `a,b` (split at the first comma); `a,+k` = k lines from a (k >= 1, no u32 overflow);
+   a single number n = from n to the end of the file, written (n, line_range_eof) until the file
+   length is known. *)
+Definition line_range_eof : N := u32_max.
+
 Definition parse_line_range (s : str) : option (N * N) :=
   match split_first c_comma s with
   | Some (a, b) =>
-      match parse_u32 a, parse_u32 b with
-      | Some x, Some y => Some (x, y)
-      | _, _ => None
+      match parse_u32 a with
+      | Some x =>
+          match strip_prefix [c_plus] b with
+          | Some cnt =>
+              match parse_u32 cnt with
+              | Some k => if (0 <? k) && (x + (k - 1) <=? u32_max) then Some (x, x + (k - 1)) else None
+              | None => None
+              end
+          | None => match parse_u32 b with Some y => Some (x, y) | None => None end
+          end
+      | None => None
       end
-  | None => match parse_u32 s with Some x => Some (x, x) | None => None end
+  | None => match parse_u32 s with Some x => Some (x, line_range_eof) | None => None end
   end.
 
 Definition range_valid (total : N) (r : N * N) : bool :=
@@ -597,11 +638,14 @@ Definition range_valid (total : N) (r : N * N) : bool :=
 
 (* prepare_blame_request: no -L means the whole file (1, total_lines); every range is validated *)
 Definition prepare_ranges (total : N) (requested : list (N * N)) : res (list (N * N)) :=
-  let rs := match requested with [] => [(1, total)] | _ => requested end in
+  let rs := match requested with
+            | [] => [(1, total)]
+            | _ => map (fun r => if snd r =? line_range_eof then (fst r, total) else r) requested
+            end in
   if forallb (range_valid total) rs then Ok rs else Err.
 
 (* shape facts read from the source by the translator; the proofs file checks this is true *)
 Definition source_shape_ok : bool :=
-  negb parser_reads_filename && overlay_uses_requested_path && attribution_first_file_match
-  && attribution_entries_reversed && attribution_own_prompts_first && json_grouping_shape
+  parser_reads_filename && overlay_uses_hunk_path && attribution_first_file_match
+  && attribution_entries_reversed && attribution_own_prompts_first && json_grouping_shape && line_range_open_end
   && (content_prefix =? c_tab) && (N.of_nat (length skipped_prefixes) =? 7).
